@@ -4,12 +4,12 @@ CONSTANTS
   NW = 2
   NT = 3
   NG = 2
-  KCodes = {0, 1010000, 1030000, 3000100, 1010303, 15150101, 15151515, 15000015, 20200}
+  KCodes = {0, 1030000, 3000100, 1010303, 15150101, 15151515, 15000015}
   WIds = {2, 3, 4}
   LMode = "mixed"
-  ECodes = {0, 1, 1500}
-  TCodes = {111,123,321,213,332}
-  QuadIds = {2, 4}
+  ECodes = {0, 1500}
+  TCodes = {111,123,321,213}
+  QuadIds = {4}
   ClampE = 15
   SlackE = 14
   Variant = "code"
